@@ -109,6 +109,14 @@ func TestCheck(t *testing.T) {
 		os.Exit(replay(dir))
 	}
 	t0 := time.Now()
+	// the in-kernel conformance pass is system-call bound, the enumeration CPU bound: they run side by side
+	var tConf time.Duration
+	confDone := make(chan struct{})
+	go func() {
+		defer close(confDone)
+		kernelConformance(run, dir)
+		tConf = time.Since(t0)
+	}()
 	tier := "quick"
 	shards := 8
 	if run.Thorough() {
@@ -194,9 +202,9 @@ func TestCheck(t *testing.T) {
 	run.SetExtra("evaluations", evals)
 	run.SetExtra("distinct_nontrivial", nontrivial)
 	tEnum := time.Since(t0)
-	kernelConformance(run, dir)
-	run.SetExtra("phase_seconds", map[string]float64{"enumeration": tEnum.Seconds(), "kernel_conformance": (time.Since(t0) - tEnum).Seconds()})
-	fmt.Printf("phases: enumeration %.1fs kernel-conformance %.1fs\n", tEnum.Seconds(), (time.Since(t0) - tEnum).Seconds())
+	<-confDone
+	run.SetExtra("phase_seconds", map[string]float64{"enumeration": tEnum.Seconds(), "kernel_conformance": tConf.Seconds()})
+	fmt.Printf("phases (side by side): enumeration %.1fs kernel-conformance %.1fs\n", tEnum.Seconds(), tConf.Seconds())
 	for _, x := range allV {
 		asan := 0
 		if strings.Contains(x.Detail, "asan build") {
